@@ -178,7 +178,7 @@ func c02Worker(w *core.WorkerCtx) {
 		c02TrustedChild(w)
 	}
 	if w.Batch == 7 || (w.Thorough() && w.Batch%20 == 7) {
-		c02RootTip(w)
+		c02RootTip(w, []string{"C02"})
 	}
 	n := w.Pick(10, 50)
 	// (a) single node, sequential: the ledger is a single chain, conservation must hold strictly
@@ -672,12 +672,12 @@ func c02TrustedChild(w *core.WorkerCtx) {
 // node truncates; the truncation cuts its parent away, so that the tip has no live parent left (a second root of the
 // graph). The node's next own vertices choose their parents among the tips: the overdrawing one must be dropped as
 // always - over the confirmed vertices, live and checkpointed, no wallet is overdrawn.
-func c02RootTip(w *core.WorkerCtx) {
-	rng := core.Rand(w.Seed, "C02roottip", w.Batch)
+func c02RootTip(w *core.WorkerCtx, props []string) {
+	rng := core.Rand(w.Seed, props[0]+"roottip", w.Batch)
 	for variant := 0; variant < w.Pick(2, 4); variant++ {
 		desc := fmt.Sprintf("c02 an overdrawing tentative tip whose parent is cut away by a truncation, variant %d seed=%d batch=%d", variant, w.Seed, w.Batch)
 		w.Mark("%s", desc)
-		world := ledger.NewWorld(rng, w.R, []string{"C02"}, allSnapOracles, desc)
+		world := ledger.NewWorld(rng, w.R, props, allSnapOracles, desc)
 		if _, err := ledger.Setup(world, ledger.Profile{Nodes: 1, Users: 4, SupplyClass: 0, Delivery: "lockstep"}); err != nil {
 			w.R.Inconc("setup failed: " + err.Error())
 			world.Close()
@@ -715,8 +715,18 @@ func c02RootTip(w *core.WorkerCtx) {
 			world.Propose(n, &m, "the node's next own vertex")
 		}
 		world.CheckConservation(n)
+		if props[0] == "C07" {
+			// the wallet held 10 before the truncation and holds 10 after it: a transfer of 50 that the node would have
+			// refused as a parent before the cut must not become a confirmed vertex after it
+			world.EvalFor("C07", 1)
+			if _, present := n.Prev.Vertex(ov.Hash); present && cut {
+				if _, leaf := n.Prev.Leaves[ov.Hash]; !leaf {
+					world.Violate("C07", "transfer-validated-against-other-funds-after-truncation", fmt.Sprintf("node %s: wallet %s held 10 before and after the truncation; its transfer of 50 sat on a tentative tip whose parent the truncation cut away, and the node's next own vertices confirmed it (admitted by gossip: %v)", n.Name, world.NameOf(u[1].Addr), derr == nil))
+				}
+			}
+		}
 		w.R.Count("c02_tentative_tips_orphaned_by_a_truncation", 1)
-		world.NontrivFor("C02", fmt.Sprintf("root-tip/admitted=%v/parent-cut=%v/still-a-tip-after-the-cut=%v", derr == nil, cut, stillTip))
+		world.NontrivFor(props[0], fmt.Sprintf("root-tip/admitted=%v/parent-cut=%v/still-a-tip-after-the-cut=%v", derr == nil, cut, stillTip))
 		world.Close()
 	}
 }
